@@ -316,8 +316,66 @@ def handle_spline(c):
     return {'res': '__none__', 'ok': ok, 'msg': msg, 'sig': 'spline', 'kind': kind}
 
 
+def handle_splinehist(c):
+    """Spline histories on ONE object: evaluate + derivative at x_interp = xs[0], then x_interp is replaced by
+    another array of the same length and both are requested again (InterpND.x_interp, or
+    SplineComp.options['x_interp_val'] between run_model calls).  Per step: the values and the derivative
+    matrix are those of a fresh object built with the current x_interp, and y = J @ y_cp (linear methods)."""
+    method = c['method']
+    v = np.array([float(fr(x)) for x in c['v']])
+    xs = [np.array([float(fr(x)) for x in step]) for step in c['xs']]
+    xcp = None if method == 'bsplines' else np.array([float(fr(x)) for x in c['x_cp']])
+    kind = 'splinehist/%s/%s' % (method, c['via'])
+    scale = max(1.0, float(np.max(np.abs(v))))
+
+    def make(xi):
+        if method == 'bsplines':
+            return InterpND(method=method, extrapolate=True, num_cp=len(v), x_interp=xi)
+        return InterpND(method=method, extrapolate=True, points=xcp, x_interp=xi)
+
+    def fresh(xi):
+        y, dy = make(xi).evaluate_spline(v.copy(), compute_derivative=True)
+        return np.array(y, dtype=float).ravel(), np.array(dy, dtype=float).reshape(len(xi), len(v))
+    ok, msg = True, ''
+    if c['via'] == 'comp':
+        opts = dict(method=method, x_interp_val=xs[0].copy())
+        if method == 'bsplines':
+            opts['num_cp'] = len(v)
+        else:
+            opts['x_cp_val'] = xcp
+        comp = om.SplineComp(**opts)
+        comp.add_spline(y_cp_name='ycp', y_interp_name='y', y_cp_val=v.copy())
+        prob = om.Problem()
+        prob.model.add_subsystem('s', comp, promotes=['*'])
+        prob.setup()
+    else:
+        it = make(xs[0].copy())
+    for k, xi in enumerate(xs):
+        if c['via'] == 'comp':
+            comp.options['x_interp_val'] = xi.copy()
+            prob.set_val('ycp', v.reshape(1, -1))
+            prob.run_model()
+            y = np.array(prob.get_val('y')).ravel()
+            J = np.array(prob.compute_totals(of=['y'], wrt=['ycp'], return_format='array')).reshape(len(xi), len(v))
+        else:
+            it.x_interp = xi.copy()
+            y, J = it.evaluate_spline(v.copy(), compute_derivative=True)
+            y, J = np.array(y, dtype=float).ravel(), np.array(J, dtype=float).reshape(len(xi), len(v))
+        yf, Jf = fresh(xi)
+        if np.max(np.abs(y - yf)) > 1e-10 * scale:
+            ok, msg = False, '%s (%s) step %d, x_interp=%s: values %r, a fresh object gives %r' % (method, c['via'], k, xi.tolist(), y.tolist(), yf.tolist())
+        elif np.max(np.abs(J - Jf)) > 1e-10 * scale:
+            ok, msg = False, ('%s (%s) step %d after x_interp was replaced by %s: derivative w.r.t. the control values differs '
+                              'from that of a fresh object by %g' % (method, c['via'], k, xi.tolist(), float(np.max(np.abs(J - Jf)))))
+        elif method != 'akima' and np.max(np.abs(J @ v - y)) > 1e-9 * scale:
+            ok, msg = False, '%s (%s) step %d, x_interp=%s: values %r but J @ y_cp = %r' % (method, c['via'], k, xi.tolist(), y.tolist(), (J @ v).tolist())
+        if not ok:
+            break
+    return {'res': '__none__', 'ok': ok, 'msg': msg, 'sig': 'spline-history', 'kind': kind}
+
+
 def handle(c):
-    return {'grad': handle_grad, 'gradapi': handle_gradapi, 'train': handle_train, 'spline': handle_spline}[c['kind']](c)
+    return {'splinehist': handle_splinehist, 'grad': handle_grad, 'gradapi': handle_gradapi, 'train': handle_train, 'spline': handle_spline}[c['kind']](c)
 
 
 if __name__ == '__main__':
